@@ -122,6 +122,12 @@ func walk[S, T any](ctx context.Context, g *graph[S], t *traversal[S, T]) error 
 }
 
 func (t *traversal[S, T]) visit(ctx context.Context, eg *errgroup.Group, node *vertex[S], nodeCh chan *vertex[S]) {
+	if ctx.Err() != nil {
+		// a visit already failed (or the caller gave up): do not start new visits. The dispatcher
+		// goroutine returns on cancellation and frees its errgroup slot, so starting more visits here
+		// could run more visitors at once than the configured maximum.
+		return
+	}
 	if !t.ready(node) {
 		// don't visit this service yet as dependencies haven't been visited
 		return
